@@ -53,6 +53,9 @@ class Compiler:
         local_symbol_prefix = f".local{self.next_local_symbol_prefix}."
         self.next_local_symbol_prefix += 1
 
+        if _VERIF:
+            self.__dict__.setdefault("verif_trace", []).append(("enter", block, start, state))
+
         try:
             for insn in block.insns:
                 state = {**state, "insn": insn, "emit_address": addr, "local_symbol_prefix": local_symbol_prefix}
@@ -88,6 +91,8 @@ class Compiler:
                         _ = 1  # for code coverage
                         continue
 
+                    if _VERIF:
+                        self.verif_trace.append((insn, addr, None, state))
                     self.compile_label(insn, addr, state)
                     if not insn.local:
                         local_symbol_prefix = f".local{self.next_local_symbol_prefix}."
@@ -143,6 +148,9 @@ class Compiler:
                     assert False  # pragma: no cover
         except CompilerStopIteration:
             pass
+
+        if _VERIF:
+            self.verif_trace.append(("exit", block, addr, data))
 
         return data
 
